@@ -552,6 +552,12 @@ Definition table_str : list (string * (list arg -> out)) :=
        | [ASA s e; sep; lim] => match optsa sep, optna lim with
            | Some sep, Some lim => out_res olarr (str_split true (mksa s e) sep lim) | _, _ => OBad end
        | _ => OBad end)
+  ; ("s_compare", fun args => match args with
+       | [ASA s1 e1; ASA s2 e2; AS name] =>
+         match parse_cmp_op name with
+         | Some f => out_res obarr (str_lift2 f (mksa s1 e1) (mksa s2 e2))
+         | None => OErr EParam end
+       | _ => OBad end)
   ; ("s_translate", fun args => match args with
        | [ASA s e; AL tbl] =>
          let pairs := (fix go l := match l with x :: y :: t => (x, y) :: go t | _ => [] end) tbl in
